@@ -156,6 +156,10 @@ func c03Run(w *W) {
 	nbatch := 3 + w.Choose(simrt.SShape, 8)
 	w.SetShape("ctxs", nctx)
 	w.SetShape("pipes", npipes)
+	if w.Choose(simrt.SShape, 5) == 0 {
+		w.AlignIDSeed(uint32(w.Choose(simrt.SShape, 6)))
+		w.SetShape("ids_cross_wrap", true)
+	}
 	b := newReqBench(w, time.Hour, nctx, npipes, false)
 	defer b.s.Close()
 	// up to two more contexts are opened in the middle of the history (while
